@@ -49,7 +49,10 @@ def build(cell, seq, named=False):
     k3 = ufl.Constant(mesh)
     form = None
     M = {"dx": ufl.dx, "ds": ufl.ds, "dS": ufl.dS, "dP": ufl.dP}
-    for n, (t, sid, rule) in enumerate(seq):
+    for n, letter in enumerate(seq):
+        t, sid, rule = letter[:3]
+        if len(letter) > 3:
+            n = letter[3]  # weight class given explicitly: integrals of one class have EQUAL integrands (UFL merges them into tuple-id groups)
         kw = dict(domain=mesh)
         if rule == "deg2":
             if t == "dP":
@@ -71,9 +74,9 @@ def build(cell, seq, named=False):
 
 def key(cell, seq):
     def one(x):
-        t, sid, r = x
+        t, sid, r = x[:3]
         s = "" if sid == "all" else ("(" + ",".join(map(str, sid)) + ")" if isinstance(sid, (tuple, list)) else f"({sid})")
-        return f"{t}{s}{'@2' if r == 'deg2' else ''}"
+        return f"{t}{s}{'@2' if r == 'deg2' else ''}{'w%d' % x[3] if len(x) > 3 else ''}"
     return cell + ":" + "+".join(one(x) for x in seq)
 
 
@@ -233,6 +236,15 @@ def main():
                 seqs = itertools.product(alpha, repeat=n)
             for seq in seqs:
                 items.append(("seq", cell, list(seq), chk.seed))
+    # merge family: integrals with EQUAL integrands over interleaving id sets - UFL merges them into tuple-id groups, so the order in which the
+    # IR lists ids is a non-trivial permutation of the sorted order (3-cycles and longer): all ordered triples over 6 id sets x weight-class patterns
+    MIDS = [(1, 7), (2, 5), (3,), (1, 2, 3), "all", (2,)]
+    wpatterns = [(0, 0, 0), (0, 1, 0)] if not chk.thorough else [(0, 0, 0), (0, 1, 0), (0, 0, 1), (1, 0, 0)]
+    for cell, types in (("triangle", ["dx", "ds", "dS"] if chk.thorough else ["dx", "ds"]), ("prism", ["ds"] if chk.thorough else [])):
+        for t in types:
+            for wp in (wpatterns if t == "dx" or chk.thorough else wpatterns[:1]):
+                for ids in itertools.product(MIDS, repeat=3):
+                    items.append(("seq", cell, [(t, i, "auto", w) for i, w in zip(ids, wp)], chk.seed))
     a = alphabet("triangle")
     for s1, s2 in [((a[0],), (a[9], a[3])), ((a[16], a[0]), (a[0],)), ((a[2], a[8]), (a[24], a[1]))]:
         items.append(("multi", "triangle", [list(s1), list(s2)], chk.seed))
@@ -256,7 +268,7 @@ def main():
     cov = dict(states=len(items), transitions=tot["kernel_calls"], traces_validated_against_impl=tot["ok"] + tot["violating"], evaluations=tot["kernel_calls"],
                distinct_nontrivial=tot["nontrivial"], totals=tot, rejected=rejected[:20], samples=samples or [dict(note="none")], exhaustive=True,
                rule=(f"all ordered sequences of <= {maxlen} integrals over the 32-letter (triangle) / 24-letter (prism) alphabet type x id-set x rule (quick: pairs over the 16/12 automatic-rule letters plus all same-type auto/degree-2 pairs over all pairs of id sets; length 3: reduced alphabet), "
-                     "weights 2^k; per form every (type, id) target x every local entity (x code pairs) compared with R and all descriptor fields recomputed from the form"))
+                     "weights 2^k; merge family: all ordered triples over the id sets (1,7),(2,5),(3),(1,2,3),everywhere,(2) with equal / partly equal integrands (UFL merges them into interleaving tuple-id groups); per form every (type, id) target x every local entity (x code pairs) compared with R and all descriptor fields recomputed from the form"))
     chk.finish(cov, assumptions=["dispatch judged through the documented lookup: kernels in [offsets[t], offsets[t+1]) with the given id, filtered by the integration-entity cell-type tag",
                                  "name maps are checked in C20 (named objects exist only on the command-line / compile_ufl_objects path)"])
 
